@@ -4,6 +4,7 @@ import (
 	"fmt"
 	"runtime/debug"
 	"sort"
+	"strconv"
 	"strings"
 
 	"github.com/nlnwa/whatwg-url/errors"
@@ -52,6 +53,7 @@ type Event struct {
 	Steps    int64
 	Mut      bool
 	Val      string // set: the value actually passed (resolved from Op.V)
+	Result   string // what a plan-level read returned (compared between the observed and the unobserved run)
 }
 
 type World struct {
@@ -64,11 +66,12 @@ type World struct {
 	CurL        map[int][]Pair
 	PrevL       map[int][]Pair
 	step        int
-	quiet       bool    // unobserved twin run: exec only
-	limits      []int64 // statement budget per operation index (recorded by the observed world, reused by the unobserved one)
-	wantVE      bool    // C13: the content of ValidationErrors() is part of the isolation observation
-	touchErrors bool    // C02: exercise the error API on every returned error
-	sched       bool    // schedsim: several worlds run on different goroutines; do not touch verifrt's global counters
+	quiet       bool     // unobserved twin run: exec only
+	results     []string // per executed (non-skipped) operation: what it returned (plan-level reads, error types)
+	limits      []int64  // statement budget per operation index (recorded by the observed world, reused by the unobserved one)
+	wantVE      bool     // C13: the content of ValidationErrors() is part of the isolation observation
+	touchErrors bool     // C02: exercise the error API on every returned error
+	sched       bool     // schedsim: several worlds run on different goroutines; do not touch verifrt's global counters
 }
 
 func newWorld(cfg Config) *World {
@@ -459,14 +462,15 @@ func (w *World) exec(i int, op Op) (ev Event) {
 		case "sp.escape":
 			var sb strings.Builder
 			sh.SP.QueryEscape(string(op.A), &sb)
+			ev.Result = sb.String()
 		case "sp.get":
-			_ = sh.SP.Get(string(op.A))
+			ev.Result = "get=" + sh.SP.Get(string(op.A))
 		case "sp.getall":
-			_ = sh.SP.GetAll(string(op.A))
+			ev.Result = "getall=" + strings.Join(sh.SP.GetAll(string(op.A)), "\x01")
 		case "sp.has":
-			_ = sh.SP.Has(string(op.A))
+			ev.Result = "has=" + strconv.FormatBool(sh.SP.Has(string(op.A)))
 		case "sp.string":
-			_ = sh.SP.String()
+			ev.Result = "string=" + sh.SP.String()
 		}
 	case "obs":
 		uh := w.U[op.H]
@@ -544,8 +548,16 @@ func unobservedRun(plan *Plan, w *World, chk Checker) *Failure {
 	b.quiet = true
 	b.limits = w.limits
 	_, isC02 := chk.(*c02Checker)
+	k := 0
 	for i, op := range plan.Ops {
 		ev := b.exec(i, op)
+		if !ev.Skipped && ev.Panic == "" && !ev.Hang {
+			if r := ev.Result + "|" + ev.Err; k < len(w.results) && w.results[k] != r {
+				f := fail(plan.Prop+".unobserved-run-differs", "operation", fmt.Sprintf("%d: %s", i, op.String()), "returned-with-reads-between-operations", q(w.results[k]), "without", q(r))
+				return &f
+			}
+			k++
+		}
 		if ev.Panic != "" || ev.Hang {
 			if isC02 {
 				f := fail("C02.panic", "op", op.String(), "config", b.Cfg.String(), "frame", ev.Panic, "msg", ev.PanicMsg, "where", "only when no getter is read between the operations")
@@ -672,6 +684,7 @@ func runWorld(plan *Plan, mk func() Checker, kf *KnownFindings, keepLog bool) (r
 		if op.F != "" {
 			res.Faults[op.F]++
 		}
+		w.results = append(w.results, ev.Result+"|"+ev.Err)
 		if ev.Err != "" || (ev.Mut && op.K == "set") {
 			// abort fault fired if the op failed, or if a setter left the target unchanged/partially changed;
 			// counted below once observations are refreshed
